@@ -35,9 +35,10 @@ Entry points
     zero_value / new_value(program, structdef): the value `New<T>()` builds
 
 Restrictions that keep the emitted Go compilable (Go map keys must be comparable): set elements and
-map keys are never binary or containers.  Typedefs whose target is a struct, and typedefs in an included
-file whose target names another declaration of that file, are only produced when asked for through
-`features` ("typedef_struct", "typedef_chain_include"): the Go generator mishandles both (see C02).
+map keys are never binary or containers.  Typedefs in an included file whose target names another declaration
+of that file are used from the including file only when asked for through `features`
+("typedef_chain_include"), snake_case service names only with "snake_service": the Go generator mishandles
+both (known findings of C02).
 """
 import math
 import struct as _struct
@@ -47,9 +48,9 @@ INT_RANGE = {"byte": 8, "i8": 8, "i16": 16, "i32": 32, "i64": 64}
 INITIALISMS = {"API", "ASCII", "CPU", "CSS", "DNS", "EOF", "GUID", "HTML", "HTTP", "HTTPS", "ID", "IP", "JSON",
                "LHS", "QPS", "RAM", "RHS", "RPC", "SLA", "SMTP", "SSH", "TLS", "TTL", "UI", "UID", "UUID",
                "URI", "URL", "UTF8", "VM", "XML"}
-ENUM_NAME_THROUGH_TYPEDEF = False
+ENUM_NAME_THROUGH_TYPEDEF = True
 DEFAULT_FEATURES = {"services": True, "scopes": True, "consts": True, "recursive": True,
-                    "typedef_struct": False, "typedef_chain_include": False, "new_prefix": False, "snake_service": False}
+                    "typedef_struct": True, "typedef_chain_include": False, "new_prefix": True, "snake_service": False}
 
 
 # ------------------------------------------------------------------------------------------------
@@ -130,7 +131,7 @@ def head_kind(program, t):
 
 
 def all_structs(program):
-    return [(fn, s) for fn in program["order"] for s in program["files"][fn]["structs"]]
+    return [(fn, s) for fn in program["order"] for s in program["files"][fn]["structs"] if not s.get("synthetic")]
 
 
 def find_service(program, file, name):
@@ -281,6 +282,8 @@ def render(program):
             blocks.append(("const", "const %s %s = %s" % (render_type(d["type"], fn), d["name"],
                                                           render_value(program, d["type"], d["value"], fn))))
         for d in f["structs"]:
+            if d.get("synthetic"):
+                continue
             sep = [",", ";", ""][len(d["name"]) % 3]
             body = "\n".join("  %s%s" % (render_field(program, x, fn, d["kind"] == "union"), sep) for x in d["fields"])
             blocks.append(("struct", "%s %s {\n%s\n}" % (d["kind"], d["name"], body)))
@@ -377,6 +380,8 @@ def gen_value(rng, program, t, depth=0, as_key=False, safe=False):
         return gen_struct_value(rng, program, d, depth)
     if r[0] in ("list", "set"):
         n = _rand_count(rng, depth)
+        if r[0] == "set" and _empty_struct(program, r[1]):
+            n = min(n, 1)     # pointers to zero-size Go structs are all equal: such a set holds one element
         out, seen = [], set()
         for _ in range(n):
             v = gen_value(rng, program, r[1], depth + 1, as_key=(r[0] == "set"), safe=safe)
@@ -389,6 +394,8 @@ def gen_value(rng, program, t, depth=0, as_key=False, safe=False):
         return out
     if r[0] == "map":
         n = _rand_count(rng, depth)
+        if _empty_struct(program, r[1]):
+            n = min(n, 1)
         out, seen = [], set()
         for _ in range(n):
             k = gen_value(rng, program, r[1], depth + 1, as_key=True, safe=safe)
@@ -418,6 +425,14 @@ def gen_value(rng, program, t, depth=0, as_key=False, safe=False):
     if r[0] == "binary":
         return rand_bytes(rng)
     raise ValueError(r)
+
+
+def _empty_struct(program, t):
+    r = resolve(program, t)
+    if r[0] != "ref":
+        return False
+    k, d = lookup(program, r[1], r[2])
+    return k == "struct" and not d["fields"]
 
 
 def _rand_count(rng, depth):
